@@ -18,13 +18,14 @@ import (
 
 // hop is one step of a client history.
 type hop struct {
-	Op   string `json:"op"`             // start do indicate respond unknown garbage readerr tick advance fail close setrto mutate
-	ID   int    `json:"id,omitempty"`   // transaction id index
-	Size int    `json:"size,omitempty"` // request size (start/do/indicate), response size (respond)
-	At   string `json:"at,omitempty"`   // tick: before | at | after | far  (relative to the earliest deadline)
-	RTO  int64  `json:"rto,omitempty"`  // setrto, nanoseconds
-	Junk string `json:"junk,omitempty"` // garbage datagram (hex)
-	Re   *hop   `json:"re,omitempty"`   // start only: a Start issued from INSIDE this transaction's handler when it completes
+	Op   string `json:"op"`               // start do indicate respond unknown garbage readerr tick advance fail close setrto mutate
+	ID   int    `json:"id,omitempty"`     // transaction id index
+	Size int    `json:"size,omitempty"`   // request size (start/do/indicate), response size (respond)
+	At   string `json:"at,omitempty"`     // tick: before | at | after | far  (relative to the earliest deadline)
+	RTO  int64  `json:"rto,omitempty"`    // setrto, nanoseconds
+	Junk string `json:"junk,omitempty"`   // garbage datagram (hex)
+	Re   *hop   `json:"re,omitempty"`     // start only: a Start issued from INSIDE this transaction's handler when it completes
+	Ref  int    `json:"refuse,omitempty"` // start/do: > 0 = the (custom) agent refuses this Start with error value refuseErrValues[Ref-1]
 }
 
 type clientCase struct {
@@ -174,8 +175,12 @@ type engine struct {
 	c clientCase
 
 	errConn, errAgent error // the values injected into the connection's / the agent's Close
-	w                 *sim.World
-	mu                sync.Mutex
+
+	refuseMu  sync.Mutex
+	refuseID  [stun.TransactionIDSize]byte
+	refuseErr error // non-nil only while the engine is inside a Start that the agent is to refuse
+	w         *sim.World
+	mu        sync.Mutex
 
 	events   []hev
 	seenEv   int
@@ -200,6 +205,7 @@ type engine struct {
 		outOfOrder        bool
 		maxInFlight       int
 		closeInFlight     bool
+		refused           bool
 		lazy              int // due transactions the client did not act on at a tick (allowed by the bounds, counted)
 	}
 }
@@ -221,6 +227,15 @@ func newEngine(c clientCase) (*engine, error) {
 	}
 	e.w = w
 	e.errConn, e.errAgent = closeErrValues(c.CloseErrKind)
+	w.Agent.Refuse = func(id [stun.TransactionIDSize]byte) error {
+		e.refuseMu.Lock()
+		defer e.refuseMu.Unlock()
+		if e.refuseErr != nil && id == e.refuseID {
+			return e.refuseErr
+		}
+
+		return nil
+	}
 	if c.ConnCloseErr {
 		w.Conn.CloseErr = e.errConn
 	}
@@ -235,6 +250,18 @@ var (
 	errConnClose  = errors.New("injected connection close error")
 	errAgentClose = errors.New("injected agent close error")
 )
+
+// refuseErrValues: what a ClientAgent may answer to Start. C10: "if Start returns an error the handler is
+// never invoked" - whatever the error is, also when it is one of the library's own sentinels.
+var refuseErrValues = []error{
+	errors.New("injected agent refusal"),
+	stun.ErrAgentClosed,
+	fmt.Errorf("agent: %w", stun.ErrAgentClosed),
+	stun.ErrTransactionExists,
+	io.EOF,
+	stun.ErrTransactionTimeOut,
+	stun.ErrTransactionStopped,
+}
 
 // closeErrValues: the error values a connection / an agent may return from Close. Besides the
 // harness's own sentinels: the errors real connections return when closed twice or concurrently
@@ -535,6 +562,13 @@ func (e *engine) step(i int, h hop) error {
 			wantErr = "closed"
 		case h.Op != "indicate" && exists:
 			wantErr = "exists"
+		case h.Op != "indicate" && h.Ref > 0:
+			// the agent refuses: Start returns its error, nothing is written, nothing stays registered
+			wantErr = "refused"
+			e.refuseMu.Lock()
+			e.refuseID, e.refuseErr = txID(h.ID), refuseErrValues[(h.Ref-1)%len(refuseErrValues)]
+			e.refuseMu.Unlock()
+			e.st.refused = true
 		default:
 			ex.writes[string(snapshot)]++
 			if e.failArm[h.ID] > 0 {
@@ -582,9 +616,15 @@ func (e *engine) step(i int, h hop) error {
 				time.Sleep(20 * time.Microsecond)
 			}
 		}
+		e.refuseMu.Lock()
+		refused := e.refuseErr
+		e.refuseErr = nil
+		e.refuseMu.Unlock()
 		got := "nil"
 		switch {
 		case err == nil:
+		case refused != nil && err == refused: //nolint:errorlint // the very value the agent returned
+			got = "refused"
 		case errors.Is(err, stun.ErrClientClosed):
 			got = "closed"
 		case errors.Is(err, stun.ErrTransactionExists):
